@@ -71,6 +71,8 @@ int xmp_start_smix(xmp_context opaque, int chn, int smp)
 {
 	struct context_data *ctx = (struct context_data *)opaque;
 	struct smix_data *smix = &ctx->smix;
+	struct xmp_instrument *xxi;
+	struct xmp_sample *xxs;
 
 	if (ctx->state > XMP_STATE_LOADED) {
 		return -XMP_ERROR_STATE;
@@ -80,23 +82,30 @@ int xmp_start_smix(xmp_context opaque, int chn, int smp)
 		return -XMP_ERROR_INVALID;
 	}
 
-	smix->xxi = (struct xmp_instrument *) calloc(smp, sizeof(struct xmp_instrument));
-	if (smix->xxi == NULL) {
+	xxi = (struct xmp_instrument *) calloc(smp, sizeof(struct xmp_instrument));
+	if (xxi == NULL) {
 		goto err;
 	}
-	smix->xxs = (struct xmp_sample *) calloc(smp, sizeof(struct xmp_sample));
-	if (smix->xxs == NULL) {
+	xxs = (struct xmp_sample *) calloc(smp, sizeof(struct xmp_sample));
+	if (xxs == NULL) {
 		goto err1;
 	}
 
+	/* Started before and not ended: release the previous tables
+	 * (a failed call leaves them as they were). */
+	if (smix->xxi != NULL || smix->xxs != NULL) {
+		xmp_end_smix(opaque);
+	}
+
+	smix->xxi = xxi;
+	smix->xxs = xxs;
 	smix->chn = chn;
 	smix->ins = smix->smp = smp;
 
 	return 0;
 
     err1:
-	free(smix->xxi);
-	smix->xxi = NULL;
+	free(xxi);
     err:
 	return -XMP_ERROR_INTERNAL;
 }
